@@ -52,6 +52,8 @@ def function_table():
             "cos(-(a + (pi + b)))", "sin(-(a + (pi + b)))", "tan(-(a / 4 + (pi + b / 8)))", "cos((a + (pi + b)) * -1)", "cos(-(a + (pi + b)) + c)", "cos(2 * (a + (pi / 2 + b)))", "sin(-2 * (a + (pi / 2 + b)))",
             "cos(-(-(a + (pi + b))))", "cos((a + (pi + b)) / -1)", "sin(-((a + (pi + b)) + c))", "cos(-(a + (b + (pi + c))))", "exp(-(a + (b + (1.5 + c))))", "cos(-(a - (pi - b)))", "cos(-a - (pi + b))", "cos(-(a + (pi + b)) ** 1)",
             "cos(c * (a + (pi + b)))", "sin(-(a + (pi + b)) / 2)", "cos(abs(-(a + (pi + b))))", "sin(pi - (a + (pi + b)))",
+            # quotients whose denominator sympy turns into 1/f(..): a/(1/abs(..)) must keep its parentheses
+            "a / abs((0.01 + b) ** (-1/3))", "(a - b) / abs(c ** (-1/2))", "a / abs(b) ** -1", "a / (1 / abs(b))", "a / sqrt(b) ** -1", "a / abs(1 / b) - c / abs(b ** -2)", "k / exp(-a) / abs(b ** (-1/3))",
             # unevaluated constant multiples of pi; real parts introduced by sympy for functions that can be complex
             "sin((a - b) - pi * pi)", "sin(a + 2 * pi * pi)", "cos(a - pi * pi)", "sin(a + pi * pi * pi)", "tan(a / 4 - (b + pi * pi))", "sin(a - pi * 2 * 3)", "cos(a * pi * pi)", "sin(a + pi * 0.5 * 2)",
             "log(abs(exp(asin(a / 2))) + 0.5)", "abs(exp(acos(b / 2)))", "abs(exp(atan(a))) * b", "abs(exp(sqrt(c))) - abs(exp(log(a)))",
